@@ -1111,6 +1111,18 @@ func run(classes []*classDesc, o *vh.Out, workdir string, seed uint64) {
 		fmt.Fprintln(os.Stderr, "explicit form does not compile (generator bug):", firstLine(err.Error()))
 		os.Exit(2)
 	}
+	// property oracle (a), independent of the model: the class type and the explicit struct type
+	// have the same go/types view (fields in order with type, embedded flag and tag; methods with
+	// receiver name, type and pointer-ness; package-level variables)
+	if pkgX, xerr := checkGo(explOut); xerr == nil && pkgX != nil {
+		for _, c := range live {
+			a, b := typeView(pkg, c), typeView(pkgX, c)
+			o.Count("type_view_compared")
+			if a != b {
+				o.Oracle("type-differs-from-explicit-form", c.caseLine(), fmt.Sprintf("class form: %s | explicit form: %s", a, b))
+			}
+		}
+	}
 	res, rerr := xrun.RunBatch(filepath.Join(workdir, "c11run"), [][]byte{classOut, explOut}, 60*time.Second)
 	if rerr != nil || len(res) != 2 {
 		fmt.Fprintln(os.Stderr, "RunBatch:", rerr)
@@ -1162,6 +1174,9 @@ func firstLine(s string) string {
 
 func main() {
 	f := vh.ParseFlags()
+	if abs, err := filepath.Abs(f.Out); err == nil {
+		f.Out = abs
+	}
 	o := vh.NewOut(f.Out)
 	defer o.Close()
 	log.SetOutput(io.Discard)
